@@ -77,7 +77,7 @@ CHECKS = {
     "C02": ("bounded-exhaustive enumeration of API-built trees (every RFC 5545 property name x value menus x parameter maps x containers x build paths x providers; all insertion orders of repeated values; all call sequences up to depth 3/4) round-tripped through the real serialiser and parser vs. an RFC property table",
             "46 property names with their documented Python value kinds (text with delimiters, int, geo, recur, offsets, date/floating/UTC/zoned date-times, durations, periods, date and period lists), 5 parameter maps, RFC containers + an unknown component, "
             "add / item assignment / property setters, both providers: after to_ical+from_ical nesting, names, parameters (+ only VALUE/TZID), decoded values and the RFC value class agree, and the emitted line satisfies the VALUE / TZID tag clause; repeated values keep their order; "
-            "all call sequences of length <=3 (thorough 4) over a 12-call menu equal a plain tree model.",
+            "all call sequences of length <=4 (thorough 5) over a 12-call menu equal a plain tree model.",
             "trusted: refmodel/rfc_props.py (written from RFC 5545 3.7/3.8), rfc_text strict splitter, rfc_values regexes; decoded() not used as observer; one open finding (mixed-zone date lists) matched by input kind + exact observation", "3/C02"),
     "C01": ("bounded-exhaustive enumeration of calendar texts in three layers (all component trees up to 4/5 nodes incl. forests; 10 line templates x all strings over a 14-symbol alphabet up to length 4/5 plus typed value lines; all ordered pairs/triples of a 40-line menu) parsed, serialised and re-parsed on the real code vs. a strict reference reader",
             "Idempotence (tree, bytes, no rejection of own output) is checked for every input from_ical accepts; exactness (the first parse denotes exactly the reference reader's tree, and the input is not rejected) for every input the strict RFC reader accepts. "
